@@ -88,6 +88,7 @@ CtxPath ==
   "r"       :> <<"document", "body", "p", "r">> @@
   "rPr"     :> <<"document", "body", "p", "r", "rPr">> @@
   "t"       :> <<"document", "body", "p", "r", "t">> @@
+  "instr"   :> <<"document", "body", "p", "r", "instrText">> @@
   "tbl"     :> <<"document", "body", "tbl">> @@
   "tblPr"   :> <<"document", "body", "tbl", "tblPr">> @@
   "tr"      :> <<"document", "body", "tbl", "tr">> @@
